@@ -1,5 +1,546 @@
-//! C09(b): invariance under extra keys (stub, filled in below).
-use crate::engine::Engine;
-use crate::evidence::Recorder;
+//! Self-relative invariance oracles: C09(b) — unknown keys have no influence
+//! without `deny_unknown_fields`; C15 — object member order never changes the
+//! outcome.
 
-pub fn run_extras(_e: &Engine, _rec: &Recorder) {}
+use crate::doc::*;
+use crate::engine::*;
+use crate::entry::*;
+use crate::evidence::*;
+use crate::explore::*;
+use crate::rec::*;
+use crate::reference::{field_key, parse_key};
+use crate::space::*;
+use mc_desc::emit::ty_str;
+use mc_desc::*;
+use serde_json::json;
+use std::collections::HashSet;
+use std::sync::atomic::{AtomicUsize, Ordering};
+
+/// Order-insensitive outcome: value, multiset of reports (kind, location,
+/// detail), multiset of user calls.
+#[derive(Clone, Debug, PartialEq, Eq, Hash)]
+pub struct Signature {
+    pub value: Option<String>,
+    pub reports: Vec<String>,
+    pub calls: Vec<String>,
+}
+
+pub fn signature(out: &Outcome) -> Signature {
+    signature_masked(out, None)
+}
+
+/// As `signature`, but reports made at an ancestor-or-self of `mask` do not
+/// compare the payload value they quote (it legitimately contains whatever is
+/// stored below that position).
+pub fn signature_masked(out: &Outcome, mask: Option<&Loc>) -> Signature {
+    let masked = |loc: &Loc| mask.map(|m| loc.len() <= m.len() && m[..loc.len()] == loc[..]).unwrap_or(false);
+    let value = out.result.as_ref().ok().map(|v| v.text());
+    let mut reports: Vec<String> = out
+        .events
+        .iter()
+        .filter_map(|e| match e {
+            Event::Report { kind, loc, on, .. } => Some(format!(
+                "{}@{} on{}: {}",
+                kind.name(),
+                loc_str(loc),
+                on,
+                if masked(loc) { kind_detail_masked(kind) } else { kind_detail(kind) }
+            )),
+            Event::Foreign { src, loc, on, .. } => Some(format!("foreign@{} on{}: {:?}", loc_str(loc), on, src)),
+            _ => None,
+        })
+        .collect();
+    reports.sort();
+    let mut calls: Vec<String> = out
+        .events
+        .iter()
+        .filter_map(|e| match e {
+            Event::UserFn(u) => Some(format!("{u:?}")),
+            _ => None,
+        })
+        .collect();
+    calls.sort();
+    Signature { value, reports, calls }
+}
+
+fn kind_detail_masked(k: &RKind) -> String {
+    match k {
+        RKind::IncorrectValueKind { accepted, .. } => format!("<quoted> {:?}", accepted),
+        RKind::BadSequenceLen { expected, actual } => format!(
+            "<quoted, {} elements> {}",
+            match actual {
+                Doc::Seq(v) => v.len(),
+                _ => 0,
+            },
+            expected
+        ),
+        other => format!("{other:?}"),
+    }
+}
+
+fn kind_detail(k: &RKind) -> String {
+    match k {
+        RKind::IncorrectValueKind { actual, accepted } => format!("{} {:?}", actual.canonical().text(), accepted),
+        RKind::BadSequenceLen { actual, expected } => format!("{} {}", actual.canonical().text(), expected),
+        other => format!("{other:?}"),
+    }
+}
+
+/// Object positions of `doc` that are governed by a struct / tagged enum
+/// without `deny_unknown_fields`, with the keys that *do* mean something there.
+fn open_positions(cat: &Catalogue, ty: &Ty, doc: &Doc, loc: &mut Loc, out: &mut Vec<(Loc, Vec<String>)>, depth: usize) {
+    if depth > 6 {
+        return;
+    }
+    match (ty, doc) {
+        (Ty::P(t) | Ty::Bx(t), _) => open_positions(cat, t, doc, loc, out, depth),
+        (Ty::Opt(t), d) if *d != Doc::Null => open_positions(cat, t, doc, loc, out, depth),
+        (Ty::Vec(t) | Ty::HSet(t) | Ty::BSet(t) | Ty::Arr(t, _), Doc::Seq(v)) => {
+            for (i, e) in v.iter().enumerate() {
+                loc.push(Step::Index(i));
+                open_positions(cat, t, e, loc, out, depth);
+                loc.pop();
+            }
+        }
+        (Ty::Tup(ts), Doc::Seq(v)) => {
+            for (i, (t, e)) in ts.iter().zip(v).enumerate() {
+                loc.push(Step::Index(i));
+                open_positions(cat, t, e, loc, out, depth);
+                loc.pop();
+            }
+        }
+        (Ty::Map { val, key, .. }, Doc::Obj(m)) => {
+            for (k, e) in m {
+                if parse_key(*key, k).is_some() {
+                    loc.push(Step::Key(k.clone()));
+                    open_positions(cat, val, e, loc, out, depth);
+                    loc.pop();
+                }
+            }
+        }
+        (Ty::Item(i), Doc::Obj(m)) => match &cat.items[*i] {
+            Item::Struct(s) => {
+                if s.deny == Deny::No {
+                    let known: Vec<String> = s.fields.iter().filter(|f| !f.skip).map(|f| field_key(f, s.rename_all)).collect();
+                    out.push((loc.clone(), known));
+                }
+                for f in s.fields.iter().filter(|f| !f.skip) {
+                    let k = field_key(f, s.rename_all);
+                    if let Some((_, e)) = m.iter().find(|(k2, _)| *k2 == k) {
+                        loc.push(Step::Key(k));
+                        open_positions(cat, &f.ty, e, loc, out, depth + 1);
+                        loc.pop();
+                    }
+                }
+            }
+            Item::Enum(e) => {
+                if let Some(tag) = &e.tag {
+                    if e.deny == Deny::No {
+                        let mut known: Vec<String> = vec![tag.clone()];
+                        for v in &e.variants {
+                            for f in v.fields.iter().flatten().filter(|f| !f.skip) {
+                                known.push(field_key(f, v.rename_all));
+                            }
+                        }
+                        out.push((loc.clone(), known));
+                    }
+                }
+            }
+            Item::Conv(c) => open_positions(cat, &c.via, doc, loc, out, depth + 1),
+        },
+        _ => {}
+    }
+}
+
+impl<'a> Engine<'a> {
+    fn par_roots(&self, roots: &[usize], f: &(dyn Fn(usize) + Sync)) {
+        let next = AtomicUsize::new(0);
+        std::thread::scope(|s| {
+            for _ in 0..self.threads {
+                s.spawn(|| {
+                    silence_panics();
+                    loop {
+                        let n = next.fetch_add(1, Ordering::SeqCst);
+                        if n >= roots.len() {
+                            break;
+                        }
+                        f(roots[n]);
+                    }
+                });
+            }
+        });
+    }
+}
+
+/// C09(b): outcome(p) = outcome(p ⊎ extras) at every open position.
+pub fn run_extras(e: &Engine, rec: &Recorder) {
+    let groups = ["A", "B1", "B2", "B3", "B4", "C2", "D", "E", "G"];
+    let roots: Vec<usize> = (0..e.cat.roots.len()).filter(|i| groups.contains(&e.cat.roots[*i].group)).collect();
+    let rich = e.tier == Tier::Thorough;
+    let max_extras = 2;
+    let values = [Doc::Int(9), Doc::s("s"), Doc::Null, Doc::Obj(vec![("zz".into(), Doc::Int(1))])];
+    e.par_roots(&roots, &|ri| {
+        let root = &e.cat.roots[ri];
+        let entry = &e.entries[ri];
+        let g = Gen::new(e.cat);
+        let tystr = ty_str(&root.ty, e.cat);
+        let subject = format!("{tystr} [{}: {}]", root.group, root.note);
+        let cl = g.closure(&root.ty, if rich { 2 } else { 1 }, rich, 20_000);
+        let mut states = 0u64;
+        let mut trans = 0u64;
+        let mut execs = 0u64;
+        let mut sigs: HashSet<u64> = HashSet::new();
+        let mut bad = 0;
+        'docs: for (doc, _) in &cl.states {
+            let mut pos = vec![];
+            open_positions(e.cat, &root.ty, doc, &mut vec![], &mut pos, 0);
+            if pos.is_empty() {
+                continue;
+            }
+            states += 1;
+            for src in [Src::Json, Src::Ov] {
+                let base = execute(entry, src, doc, &Script::keep_going());
+                execs += 1;
+                sigs.insert(hash64(&(ri, &signature(&base))));
+                for (ploc, known) in &pos {
+                    let Some(Doc::Obj(m)) = doc.resolve(ploc) else { continue };
+                    let base_sig = signature_masked(&base, Some(ploc));
+                    // the universe of keys that must mean nothing here
+                    let mut universe: Vec<String> = vec![];
+                    for k in known {
+                        for cand in [
+                            format!("{k}x"),
+                            format!("_{k}"),
+                            format!(" {k}"),
+                            format!("{k} "),
+                            k.to_uppercase(),
+                            k.to_lowercase(),
+                            crate::reference::camel(k),
+                        ] {
+                            if !known.contains(&cand) && !universe.contains(&cand) && !m.iter().any(|(k2, _)| *k2 == cand) {
+                                universe.push(cand);
+                            }
+                        }
+                    }
+                    // identifiers and skipped names of the governing struct
+                    if let Some(extra) = idents_at(e.cat, &root.ty, doc, ploc) {
+                        for cand in extra {
+                            if !known.contains(&cand) && !universe.contains(&cand) && !m.iter().any(|(k2, _)| *k2 == cand) {
+                                universe.push(cand);
+                            }
+                        }
+                    }
+                    universe.push("zz".to_string());
+                    if !rich {
+                        universe.truncate(10);
+                    }
+                    // all subsets of ≤ max_extras keys × values (same value for both keys of a pair,
+                    // plus the mixed pair)
+                    let mut extras: Vec<Vec<(String, Doc)>> = vec![];
+                    for (i, k) in universe.iter().enumerate() {
+                        for v in &values {
+                            extras.push(vec![(k.clone(), v.clone())]);
+                        }
+                        if max_extras >= 2 {
+                            for k2 in universe.iter().skip(i + 1) {
+                                extras.push(vec![(k.clone(), values[0].clone()), (k2.clone(), values[1].clone())]);
+                            }
+                        }
+                    }
+                    for ex in extras {
+                        let mut d2 = doc.clone();
+                        if let Some(Doc::Obj(mm)) = d2.resolve_mut(ploc) {
+                            for (k, v) in &ex {
+                                mm.push((k.clone(), v.clone()));
+                            }
+                        }
+                        let d2 = if src == Src::Json { d2.canonical() } else { d2 };
+                        trans += 1;
+                        let o2 = execute(entry, src, &d2, &Script::keep_going());
+                        execs += 1;
+                        let s2 = signature_masked(&o2, Some(ploc));
+                        if s2 != base_sig && o2.panicked.is_none() && base.panicked.is_none() {
+                            rec.violation(Violation {
+                                property: "C09".into(),
+                                subject: subject.clone(),
+                                message: format!(
+                                    "adding the unknown member(s) {:?} at {} changed the outcome although deny_unknown_fields is not set\n  payload: {}\n  without: {:?}\n  with:    {:?}",
+                                    ex.iter().map(|(k, v)| format!("{k:?}: {}", v.text())).collect::<Vec<_>>(),
+                                    loc_str(ploc),
+                                    doc.text(),
+                                    base_sig,
+                                    s2
+                                ),
+                                replay: json!({"kind": "extras", "root": ri, "type": tystr, "source": format!("{src:?}"),
+                                               "payload": doc_to_tagged(doc), "payload_with_extras": doc_to_tagged(&d2)}),
+                            });
+                            bad += 1;
+                            if bad >= 3 {
+                                break 'docs;
+                            }
+                        }
+                    }
+                }
+            }
+        }
+        rec.add_counts(states, trans, execs);
+        rec.add_signatures(&sigs, &sigs);
+        rec.add_extra_count("extras_part_states", states);
+        rec.add_extra_count("extras_part_transitions_(payload → payload ⊎ extras)", trans);
+    });
+}
+
+/// Rust identifiers (incl. skipped fields) of the struct governing position `at`.
+fn idents_at(cat: &Catalogue, ty: &Ty, doc: &Doc, at: &Loc) -> Option<Vec<String>> {
+    fn go(cat: &Catalogue, ty: &Ty, doc: &Doc, rest: &[Step]) -> Option<Vec<String>> {
+        match ty {
+            Ty::P(t) | Ty::Bx(t) | Ty::Opt(t) => go(cat, t, doc, rest),
+            Ty::Vec(t) | Ty::HSet(t) | Ty::BSet(t) | Ty::Arr(t, _) => match rest.split_first() {
+                Some((Step::Index(i), r)) => go(cat, t, doc.resolve(&[Step::Index(*i)])?, r),
+                _ => None,
+            },
+            Ty::Tup(ts) => match rest.split_first() {
+                Some((Step::Index(i), r)) => go(cat, ts.get(*i)?, doc.resolve(&[Step::Index(*i)])?, r),
+                _ => None,
+            },
+            Ty::Map { val, .. } => match rest.split_first() {
+                Some((Step::Key(k), r)) => go(cat, val, doc.get(k)?, r),
+                _ => None,
+            },
+            Ty::Item(i) => match &cat.items[*i] {
+                Item::Struct(s) => match rest.split_first() {
+                    None => Some(s.fields.iter().flat_map(|f| [f.ident.clone(), f.ident.to_lowercase()]).collect()),
+                    Some((Step::Key(k), r)) => {
+                        let f = s.fields.iter().find(|f| !f.skip && field_key(f, s.rename_all) == *k)?;
+                        go(cat, &f.ty, doc.get(k)?, r)
+                    }
+                    _ => None,
+                },
+                Item::Enum(e) => {
+                    if rest.is_empty() {
+                        Some(e.variants.iter().flat_map(|v| v.fields.iter().flatten()).map(|f| f.ident.clone()).collect())
+                    } else {
+                        None
+                    }
+                }
+                Item::Conv(c) => go(cat, &c.via, doc, rest),
+            },
+            _ => None,
+        }
+    }
+    go(cat, ty, doc, at)
+}
+
+// -----------------------------------------------------------------------------------------
+// C15 — permutations
+// -----------------------------------------------------------------------------------------
+
+fn permutations(n: usize) -> Vec<Vec<usize>> {
+    fn go(n: usize, cur: &mut Vec<usize>, used: &mut Vec<bool>, out: &mut Vec<Vec<usize>>) {
+        if cur.len() == n {
+            out.push(cur.clone());
+            return;
+        }
+        for i in 0..n {
+            if !used[i] {
+                used[i] = true;
+                cur.push(i);
+                go(n, cur, used, out);
+                cur.pop();
+                used[i] = false;
+            }
+        }
+    }
+    let mut out = vec![];
+    go(n, &mut vec![], &mut vec![false; n], &mut out);
+    out
+}
+
+/// All documents obtained by permuting the members of every object (product
+/// over objects). Returns `None` if there are more than `cap` of them.
+fn all_orders(d: &Doc, cap: usize) -> Option<Vec<Doc>> {
+    match d {
+        Doc::Seq(v) => {
+            let mut acc: Vec<Vec<Doc>> = vec![vec![]];
+            for e in v {
+                let alts = all_orders(e, cap)?;
+                let mut next = vec![];
+                for a in &acc {
+                    for x in &alts {
+                        let mut b = a.clone();
+                        b.push(x.clone());
+                        next.push(b);
+                    }
+                }
+                if next.len() > cap {
+                    return None;
+                }
+                acc = next;
+            }
+            Some(acc.into_iter().map(Doc::Seq).collect())
+        }
+        Doc::Obj(m) => {
+            let mut acc: Vec<Vec<(String, Doc)>> = vec![vec![]];
+            for (k, e) in m {
+                let alts = all_orders(e, cap)?;
+                let mut next = vec![];
+                for a in &acc {
+                    for x in &alts {
+                        let mut b = a.clone();
+                        b.push((k.clone(), x.clone()));
+                        next.push(b);
+                    }
+                }
+                if next.len() > cap {
+                    return None;
+                }
+                acc = next;
+            }
+            let perms = permutations(m.len());
+            if acc.len() * perms.len() > cap {
+                return None;
+            }
+            let mut out = vec![];
+            for a in &acc {
+                for p in &perms {
+                    out.push(Doc::Obj(p.iter().map(|i| a[*i].clone()).collect()));
+                }
+            }
+            Some(out)
+        }
+        d => Some(vec![d.clone()]),
+    }
+}
+
+fn colliding(cat: &Catalogue, ty: &Ty, d: &Doc, depth: usize) -> bool {
+    if depth > 8 {
+        return false;
+    }
+    match (ty, d) {
+        (Ty::P(t) | Ty::Bx(t) | Ty::Opt(t), _) => colliding(cat, t, d, depth),
+        (Ty::Vec(t) | Ty::HSet(t) | Ty::BSet(t) | Ty::Arr(t, _), Doc::Seq(v)) => v.iter().any(|e| colliding(cat, t, e, depth)),
+        (Ty::Tup(ts), Doc::Seq(v)) => ts.iter().zip(v).any(|(t, e)| colliding(cat, t, e, depth)),
+        (Ty::Map { key, val, .. }, Doc::Obj(m)) => {
+            let parsed: Vec<String> = m.iter().filter_map(|(k, _)| parse_key(*key, k)).collect();
+            let mut s = parsed.clone();
+            s.sort();
+            s.dedup();
+            s.len() != parsed.len() || m.iter().any(|(_, e)| colliding(cat, val, e, depth))
+        }
+        (Ty::Item(i), Doc::Obj(m)) => match &cat.items[*i] {
+            Item::Struct(s) => m.iter().any(|(k, e)| {
+                s.fields.iter().any(|f| !f.skip && field_key(f, s.rename_all) == *k && colliding(cat, &f.ty, e, depth + 1))
+            }),
+            Item::Enum(en) => m.iter().any(|(k, e)| {
+                en.variants.iter().any(|v| {
+                    v.fields.iter().flatten().any(|f| !f.skip && field_key(f, v.rename_all) == *k && colliding(cat, &f.ty, e, depth + 1))
+                })
+            }),
+            Item::Conv(c) => colliding(cat, &c.via, d, depth + 1),
+        },
+        _ => false,
+    }
+}
+
+pub fn run_c15(e: &Engine) -> i32 {
+    let rec = Recorder::new("C15", e.tier);
+    let roots: Vec<usize> = (0..e.cat.roots.len()).collect();
+    let (max_members, faults, cap) = if e.tier == Tier::Quick { (4usize, 1usize, 600usize) } else { (5, 2, 3000) };
+    let rich = e.tier == Tier::Thorough;
+    let skipped_big = AtomicUsize::new(0);
+    let skipped_cap = AtomicUsize::new(0);
+    e.par_roots(&roots, &|ri| {
+        let root = &e.cat.roots[ri];
+        let entry = &e.entries[ri];
+        let g = Gen::new(e.cat);
+        let tystr = ty_str(&root.ty, e.cat);
+        let subject = format!("{tystr} [{}: {}]", root.group, root.note);
+        let cl = g.closure(&root.ty, faults, rich, 4_000);
+        let mut docs: Vec<Doc> = cl.states.into_iter().map(|x| x.0).collect();
+        let (keys, leaves) = g.small_alphabet(&root.ty);
+        let mut seen: HashSet<String> = docs.iter().map(|d| d.text()).collect();
+        for d in small_docs(3, &keys, &leaves) {
+            if seen.insert(d.text()) {
+                docs.push(d);
+            }
+        }
+        let mut states = 0u64;
+        let mut trans = 0u64;
+        let mut execs = 0u64;
+        let mut sigs: HashSet<u64> = HashSet::new();
+        let mut bad = 0;
+        for doc in &docs {
+            let mol = doc.max_object_len();
+            if mol < 2 {
+                continue; // nothing to permute
+            }
+            if mol > max_members {
+                skipped_big.fetch_add(1, Ordering::Relaxed);
+                continue;
+            }
+            if colliding(e.cat, &root.ty, doc, 0) {
+                continue;
+            }
+            let Some(orders) = all_orders(doc, cap) else {
+                skipped_cap.fetch_add(1, Ordering::Relaxed);
+                continue;
+            };
+            states += 1;
+            let mut first: Option<(Signature, Option<String>, Doc)> = None;
+            for o in &orders {
+                trans += 1;
+                let keep = execute(entry, Src::Ov, o, &Script::keep_going());
+                let ff = execute(entry, Src::Ov, o, &Script::fail_fast());
+                execs += 2;
+                if keep.panicked.is_some() || ff.panicked.is_some() {
+                    continue;
+                }
+                let s = signature(&keep);
+                let ffv = ff.result.as_ref().ok().map(|v| v.text());
+                match &first {
+                    None => {
+                        sigs.insert(hash64(&(ri, &s)));
+                        first = Some((s, ffv, o.clone()));
+                    }
+                    Some((s0, ff0, o0)) => {
+                        if *s0 != s || *ff0 != ffv {
+                            rec.violation(Violation {
+                                property: "C15".into(),
+                                subject: subject.clone(),
+                                message: format!(
+                                    "the outcome depends on the member order\n  order 1: {}\n    {:?} fail-fast value {:?}\n  order 2: {}\n    {:?} fail-fast value {:?}",
+                                    o0.text(), s0, ff0, o.text(), s, ffv
+                                ),
+                                replay: json!({"kind": "perm", "root": ri, "type": tystr, "order1": doc_to_tagged(o0), "order2": doc_to_tagged(o)}),
+                            });
+                            bad += 1;
+                            break;
+                        }
+                    }
+                }
+            }
+            if bad >= 3 {
+                break;
+            }
+        }
+        rec.add_counts(states, trans, execs);
+        rec.add_signatures(&sigs, &sigs);
+    });
+    rec.set_extra("max_members_per_object", json!(max_members));
+    rec.set_extra("payloads_skipped_because_an_object_has_more_members", json!(skipped_big.load(Ordering::Relaxed)));
+    rec.set_extra("payloads_skipped_because_the_permutation_product_exceeds_the_cap", json!(skipped_cap.load(Ordering::Relaxed)));
+    rec.set_extra("permutation_product_cap", json!(cap));
+    rec.set_extra("faults_per_payload", json!(faults));
+    if skipped_cap.load(Ordering::Relaxed) > 0 {
+        rec.cap_hit(format!("{} payloads skipped: permutation product above {cap}", skipped_cap.load(Ordering::Relaxed)));
+    }
+    rec.sample(json!({"note": "every state is a payload; every transition one simultaneous permutation of the members of all its objects, presented through the order-preserving value source"}));
+    rec.finish(
+        "model_checking",
+        "states = (catalogue type, payload) with payloads from the fault closure (≤F faults) and all small documents, restricted to objects of ≤ M members and no two keys parsing to the same map key; transitions = every simultaneous permutation of the members of every object (full product, all m! orders per object), presented through the order-preserving second value source. Oracle (self-relative): the keep-going outcome signature (value | multiset of (kind, location, detail) reports, multiset of user-function calls) and the fail-fast success value are identical for every order. Payloads whose permutation product exceeds the cap are skipped and counted, never sampled.",
+        &[
+            "exhaustive only within the stated alphabets and bounds",
+            "every explored behaviour is an execution of /repo's real deserr::deserialize",
+        ],
+    )
+}
